@@ -200,9 +200,31 @@ func VerifC18NodeKey(n *VerifNode) string {
 		ev, _ := n.EvPool.PendingEvidence(1000)
 		fmt.Fprintf(&sb, "ev=%d ", len(ev))
 	}
-	fmt.Fprintf(&sb, "q=%d/%d", len(cs.peerMsgQueue), len(cs.internalMsgQueue))
+	claims, _ := cs.Votes.VerifC18Claims()
+	fmt.Fprintf(&sb, "q=%d/%d claims[%s] lc[%s]", len(cs.peerMsgQueue), len(cs.internalMsgQueue), claims, cs.LastCommit.VerifC18Claims())
 	return sb.String()
 }
 
 // VerifC18DecodeMsg is the reactor's decodeMsg.
 func VerifC18DecodeMsg(bz []byte) (Message, error) { return decodeMsg(bz) }
+
+// VerifC18NodeStamp is a cheap fingerprint of the same state: scalar fields, the identity of the
+// objects the round state points to, the number of handler steps executed by the harness and the
+// queue lengths. It changes whenever the handler ran or a field was replaced; the checker computes
+// the full VerifC18NodeKey whenever the stamp moved (and periodically to validate the stamp).
+func VerifC18NodeStamp(n *VerifNode) string {
+	cs := n.CS
+	to := -1
+	if t := n.Ticker.pending; t != nil {
+		to = int(t.Height)*1000 + int(t.Round)*10 + int(t.Step)
+	}
+	var pbpCount uint32
+	if cs.ProposalBlockParts != nil {
+		pbpCount = cs.ProposalBlockParts.Count()
+	}
+	_, claims := cs.Votes.VerifC18Claims()
+	claims += cs.LastCommit.VerifC18ClaimCount()
+	return fmt.Sprintf("%d/%d/%d|%d %d %d %v|%p %p %p:%d %p %p %p %p|%d %d %d|%d %d %d|%v|%d", cs.Height, cs.Round, cs.Step, cs.LockedRound, cs.ValidRound, cs.CommitRound,
+		cs.TriggeredTimeoutPrecommit, cs.Proposal, cs.ProposalBlock, cs.ProposalBlockParts, pbpCount, cs.LockedBlock, cs.ValidBlock, cs.Votes, cs.LastCommit,
+		cs.state.LastBlockHeight, len(n.App.Saved), n.Steps, len(cs.peerMsgQueue), len(cs.internalMsgQueue), to, n.Failed != nil, claims)
+}
